@@ -121,6 +121,7 @@ CONSTANTS FAMSEL,    \* families explored by this run (see Families)
           BRANCH,    \* family "sim": expected number of node choices kept per step
           DEPTHS,    \* family "deep": depths for every shape
           BIGDEPTHS, \* family "deep": additional depths for the list-like shapes
+          TWINMOD,   \* family "twin": one in TWINMOD kind vectors of the 3-node bases is kept (SEED)
           ALG,       \* TRUE: run the machines as explicit TLC states (MC_Shapes_alg)
           VARIANT    \* "ok", or a deliberately broken machine (MC_Shapes_cex_*: TLC must object):
                      \*   "single_visited"  Eq keys its visited set on the LEFT node only (what Steel's
@@ -208,6 +209,15 @@ FuncChoices(kk, i, pos) ==
   ELSE IF pos = 1 THEN {<<s, Leaf(1)>> : s \in SlotChoices(kk, i, 1)}
   ELSE {<<Leaf(1), s>> : s \in SlotChoices(kk, i, 2)}
 Uniform(S, n) == {[i \in 1..n |-> k] : k \in S}
+\* "twin": BASE shapes that are then built twice (see TWINS below).  2 nodes: every heap over all
+\* six kinds (leaf 1 only - the near-twins introduce the second leaf); 3 nodes: every node has one
+\* link in either slot, the other slot holds the leaf 1 - all mixes of kinds along a path that
+\* closes into a cycle.  Immutable-only kind vectors are allowed: shared, acyclic bases.
+SlotChoices1(kk, i, p) == {Leaf(1)} \cup {Ref(j) : j \in {j \in 1..Len(kk) : RefOK(kk, i, p, j)}}
+TwinChoices(kk, i) ==
+  IF Arity(kk[i]) = 1 THEN {<<s>> : s \in SlotChoices1(kk, i, 1)}
+  ELSE IF Len(kk) = 2 THEN {<<s, t>> : s \in SlotChoices1(kk, i, 1), t \in SlotChoices1(kk, i, 2)}
+  ELSE {<<s, Leaf(1)>> : s \in SlotChoices1(kk, i, 1)} \cup {<<Leaf(1), s>> : s \in SlotChoices1(kk, i, 2)}
 
 KindVecs(f) ==
   CASE f = "full"  -> {kk \in UNION {SeqsOf(AllKinds, n) : n \in 1..FULLN} : HasMutable(kk)}
@@ -215,11 +225,13 @@ KindVecs(f) ==
     [] f = "func1" -> UNION {Uniform({"B", "V", "S"}, n) : n \in 3..MAXN}
     [] f = "func2" -> UNION {Uniform({"V", "S"}, n) : n \in 3..MAXN}
     [] f = "sim"   -> {kk \in UNION {SeqsOf(AllKinds, n) : n \in 3..MAXN} : HasMutable(kk)}
+    [] f = "twin"  -> UNION {SeqsOf(AllKinds, n) : n \in 2..3}
     [] OTHER       -> {<< >>}
 AllChoices(f, kk, i) ==
   CASE f = "ring"  -> RingChoices(kk, i)
     [] f = "func1" -> FuncChoices(kk, i, 1)
     [] f = "func2" -> FuncChoices(kk, i, 2)
+    [] f = "twin"  -> TwinChoices(kk, i)
     [] OTHER       -> Tuples(kk, i)
 
 \* Seeded pseudo-random thinning of the build tree of family "sim" (a pure function of the
@@ -236,7 +248,9 @@ Kept(kk, hh, choices) == Kept3(choices, HeapCode(kk, hh, Len(hh)), Cardinality(c
 Choices(f, kk, hh) == IF f = "sim" THEN Kept(kk, hh, AllChoices(f, kk, Len(hh) + 1))
                       ELSE AllChoices(f, kk, Len(hh) + 1)
 \* family "sim" also thins the kind vectors (about one in four survives)
-KeptKinds(f, kk) == f # "sim" \/ (Mx(KindsCode(kk, Len(kk)), 3001) % 4) = 0
+KeptKinds(f, kk) == CASE f = "sim"  -> (Mx(KindsCode(kk, Len(kk)), 3001) % 4) = 0
+                       [] f = "twin" -> Len(kk) = 2 \/ (Mx(KindsCode(kk, Len(kk)), 2003) % TWINMOD) = 0
+                       [] OTHER      -> TRUE
 
 -----------------------------------------------------------------------------
 (* BISIMILARITY - the meaning of equal? on possibly cyclic graphs, defined    *)
@@ -292,26 +306,34 @@ EqResult(g, x, y) == EqRun(g, EqInit(x, y)).res = "T"
 (*     equal) as soon as EITHER node was seen before, in any pairing;         *)
 (*   - boxes are compared without consulting the set at all;                  *)
 (*   - identical objects are equal without descending.                        *)
-AsIsInit(x, y) == [todo |-> << <<x, y>> >>, ids |-> {}, res |-> "run"]
-AsIsVisit(g, st, x, y, rest) ==
+\*   - the two work queues are used as STACKS (EqualityVisitor::pop_front is Vec::pop): the
+\*     children of a node - leaves included - are pushed in slot order and the LAST one is compared
+\*     first, so a differing leaf in an early slot is only seen after everything reachable from the
+\*     later slots has been compared (which, through a box cycle, is never).
+\* A work item is a pair of SLOTS.
+AsIsInit(x, y) == [todo |-> << <<Ref(x), Ref(y)>> >>, ids |-> {}, res |-> "run"]
+SlotPairs(g, x, y) == [p \in 1..Arity(g.k[x]) |-> <<g.c[x][p], g.c[y][p]>>]
+AsIsNode(g, st, x, y, rest) ==
   IF x = y THEN [st EXCEPT !.todo = rest]
   ELSE IF g.k[x] # g.k[y] THEN [st EXCEPT !.res = "F"]
-  ELSE IF g.k[x] = "B"
-       THEN (IF LeafClash(g, x, y) THEN [st EXCEPT !.res = "F"]
-             ELSE [st EXCEPT !.todo = rest \o ChildPairs(g, x, y)])
+  ELSE IF g.k[x] = "B" THEN [st EXCEPT !.todo = rest \o SlotPairs(g, x, y)]
   ELSE IF x \in st.ids THEN [st EXCEPT !.todo = rest]
   ELSE IF y \in st.ids THEN [st EXCEPT !.todo = rest, !.ids = @ \cup {x}]
-  ELSE IF LeafClash(g, x, y) THEN [st EXCEPT !.res = "F"]
-  ELSE [todo |-> rest \o ChildPairs(g, x, y), ids |-> st.ids \cup {x, y}, res |-> "run"]
+  ELSE [todo |-> rest \o SlotPairs(g, x, y), ids |-> st.ids \cup {x, y}, res |-> "run"]
+AsIsItem(g, st, s, t, rest) ==
+  IF s.r = 0 /\ t.r = 0 THEN (IF s.l = t.l THEN [st EXCEPT !.todo = rest] ELSE [st EXCEPT !.res = "F"])
+  ELSE IF s.r = 0 \/ t.r = 0 THEN [st EXCEPT !.res = "F"]
+  ELSE AsIsNode(g, st, s.r, t.r, rest)
 AsIsStep(g, st) == IF st.todo = << >> THEN [st EXCEPT !.res = "T"]
-                   ELSE AsIsVisit(g, st, Head(st.todo)[1], Head(st.todo)[2], Tail(st.todo))
-\* no measure: this machine need not terminate; it is run with fuel (a terminating run on <= 4 nodes
-\* visits each node at most once per side and each box pair ... far fewer than 200 steps)
+                   ELSE AsIsItem(g, st, st.todo[Len(st.todo)][1], st.todo[Len(st.todo)][2],
+                                 SubSeq(st.todo, 1, Len(st.todo) - 1))
+\* no measure: this machine need not terminate; it is run with fuel (a terminating run on <= 9 nodes
+\* visits each non-box node at most once per side: far fewer than 300 steps)
 RECURSIVE AsIsRun(_, _, _)
 AsIsRun(g, st, fuel) == IF st.res # "run" THEN st.res ELSE IF fuel = 0 THEN "hang"
                         ELSE AsIsRun(g, AsIsStep(g, st), fuel - 1)
-AsIsPredict(g, x, y, b) == IF AsIsRun(g, AsIsInit(x, y), 200) = "hang" THEN "hang"
-                           ELSE IF (AsIsRun(g, AsIsInit(x, y), 200) = "T") = b THEN "ok" ELSE "wrong"
+AsIsPredict3(r, b) == IF r = "hang" THEN "hang" ELSE IF (r = "T") = b THEN "ok" ELSE "wrong"
+AsIsPredict(g, x, y, b) == AsIsPredict3(AsIsRun(g, AsIsInit(x, y), 300), b)
 
 -----------------------------------------------------------------------------
 (* MACHINE Scan (printer pass 1): which nodes are reached more than once.     *)
@@ -413,10 +435,21 @@ Setters(g, i) ==
                          "(set-c18s@@-b! " \o V(i) \o " " \o RSlot(g.c[i][2]) \o ")">>
     [] OTHER -> << >>
 MutIdx(g) == SelectSeq([i \in Nodes(g) |-> i], LAMBDA i : Mutable(g.k[i]))
-ImmIdx(g) == SelectSeq([i \in Nodes(g) |-> i], LAMBDA i : ~Mutable(g.k[i]))
-Bindings(g) ==
-  Join([q \in 1..Len(MutIdx(g)) |-> "(" \o V(MutIdx(g)[q]) \o " " \o Placeholder(g.k[MutIdx(g)[q]]) \o ")"]
-       \o [q \in 1..Len(ImmIdx(g)) |-> "(" \o V(ImmIdx(g)[q]) \o " " \o ImmNode(g, ImmIdx(g)[q]) \o ")"], " ")
+\* immutable nodes are bound in an order in which every immutable node comes after the immutable
+\* nodes it refers to (rank = length of the longest chain of immutable references below it; the
+\* immutable sub-graph is acyclic).  For the enumerated families that is the index order; the
+\* derived heaps of family "twin" need the general rule.
+SetMax(S) == CHOOSE m \in S : \A x \in S : x <= m
+RECURSIVE ImmRank(_, _)
+ImmRank2(g, imm) == IF imm = {} THEN 0 ELSE 1 + SetMax({ImmRank(g, j) : j \in imm})
+ImmRank(g, i) == ImmRank2(g, {j \in Succ(g, i) : ~Mutable(g.k[j])})
+ImmIdx2(g, idx, rank) == SortSeq(idx, LAMBDA a, b : rank[a] < rank[b] \/ (rank[a] = rank[b] /\ a < b))
+ImmIdx(g) == ImmIdx2(g, SelectSeq([i \in Nodes(g) |-> i], LAMBDA i : ~Mutable(g.k[i])),
+                     [i \in Nodes(g) |-> IF Mutable(g.k[i]) THEN 0 ELSE ImmRank(g, i)])
+Bindings3(g, mi, ii) ==
+  Join([q \in 1..Len(mi) |-> "(" \o V(mi[q]) \o " " \o Placeholder(g.k[mi[q]]) \o ")"]
+       \o [q \in 1..Len(ii) |-> "(" \o V(ii[q]) \o " " \o ImmNode(g, ii[q]) \o ")"], " ")
+Bindings(g) == Bindings3(g, MutIdx(g), ImmIdx(g))
 LetGraph(g, result) ==
   "(let* (" \o Bindings(g) \o ") " \o Join(Flatten([q \in 1..Len(MutIdx(g)) |-> Setters(g, MutIdx(g)[q])]), " ")
   \o " " \o result \o ")"
@@ -517,6 +550,77 @@ PairGroup(f, g, bis) ==
   ELSE << >>
 CycCase3(f, g, bis) == [fam |-> f, n |-> Len(g.k), groups |-> SingleGroup(f, g) \o PairGroup(f, g, bis)]
 CycCase(f, g) == CycCase3(f, g, Bisim(g))
+
+-----------------------------------------------------------------------------
+(* TWINS.  From a base shape b over k nodes (rooted at node 1) the heap       *)
+(*     b  (+)  a second structure over fresh nodes k+1 ..                     *)
+(* is derived, and the pair (1, k+1) is tested in both orders:                *)
+(*   copy    a disjoint copy of b: two DISTINCT, isomorphic values (the pair  *)
+(*           is bisimilar but shares no node - the only way an equality or    *)
+(*           hashing routine can finish is by its own cycle handling, never   *)
+(*           by meeting an identical object)                                  *)
+(*   leaf1 / leaf9   the copy with its first / last leaf changed to 2         *)
+(*   edge1 / edge9   the copy with its first / last reference replaced by the *)
+(*           leaf 1 (an edge removed, possibly opening the cycle)             *)
+(*   unfold  the copy unrolled twice: two copies A, B of b in which every     *)
+(*           edge into the root goes to the root of the OTHER copy - every    *)
+(*           cycle through the root has doubled length; bisimilar to b        *)
+(* Nothing is assumed about which variants are equal: the expectation is the  *)
+(* greatest-fixpoint Bisim of the derived heap, the work-list machine Eq is   *)
+(* checked against it on the tested pairs (TwinOK), EqAsIs labels the pair.   *)
+Shift(s, d) == IF s.r = 0 THEN s ELSE Ref(s.r + d)
+ShiftAll(c, d) == [i \in 1..Len(c) |-> [p \in 1..Len(c[i]) |-> Shift(c[i][p], d)]]
+\* like ShiftAll, but references to node 1 go to node `root`
+ShiftRoot(c, d, root) == [i \in 1..Len(c) |-> [p \in 1..Len(c[i]) |->
+                            IF c[i][p].r = 1 THEN Ref(root) ELSE Shift(c[i][p], d)]]
+AllPos(g) == Flatten([i \in Nodes(g) |-> [p \in 1..Len(g.c[i]) |-> <<i, p>>]])
+LeafPos(g) == SelectSeq(AllPos(g), LAMBDA q : g.c[q[1]][q[2]].r = 0)
+RefPos(g)  == SelectSeq(AllPos(g), LAMBDA q : g.c[q[1]][q[2]].r # 0)
+WithSlot(c, q, s) == [c EXCEPT ![q[1]][q[2]] = s]
+Twin2(b, c2) == G(b.k \o b.k, b.c \o ShiftAll(c2, Len(b.k)))
+TwinVariants3(b, lp, rp) ==
+  << [tw |-> "copy", g |-> Twin2(b, b.c)] >>
+  \o (IF Len(lp) >= 1 THEN << [tw |-> "leaf1", g |-> Twin2(b, WithSlot(b.c, lp[1], Leaf(2)))] >> ELSE << >>)
+  \o (IF Len(lp) >= 2 THEN << [tw |-> "leaf9", g |-> Twin2(b, WithSlot(b.c, lp[Len(lp)], Leaf(2)))] >> ELSE << >>)
+  \o (IF Len(rp) >= 1 THEN << [tw |-> "edge1", g |-> Twin2(b, WithSlot(b.c, rp[1], Leaf(1)))] >> ELSE << >>)
+  \o (IF Len(rp) >= 2 THEN << [tw |-> "edge9", g |-> Twin2(b, WithSlot(b.c, rp[Len(rp)], Leaf(1)))] >> ELSE << >>)
+  \o (IF \E q \in Range(rp) : b.c[q[1]][q[2]].r = 1
+      THEN << [tw |-> "unfold",
+               g |-> G(b.k \o b.k \o b.k,
+                       b.c \o ShiftRoot(b.c, Len(b.k), 2 * Len(b.k) + 1)
+                           \o ShiftRoot(b.c, 2 * Len(b.k), Len(b.k) + 1))] >>
+      ELSE << >>)
+TwinVariants(b) == TwinVariants3(b, LeafPos(b), RefPos(b))
+
+TwinOK(g, x, y, bis) ==
+  /\ EqResult(g, x, y) = (<<x, y>> \in bis) /\ EqResult(g, y, x) = (<<y, x>> \in bis)
+  /\ (<<x, y>> \in bis) = (<<y, x>> \in bis)
+  /\ (<<x, y>> \in bis) => HashOf(g, x) = HashOf(g, y)
+TBool(b) == IF b THEN "#true" ELSE "#false"
+TwinOps(f, g, x, y, b, tw) ==
+  << Op("equal", Tag(f, g, "equal", <<x, y>>, "|bisim=" \o B2S(b) \o "|same=F|asis=" \o AsIsPredict(g, x, y, b) \o "|tw=" \o tw),
+        <<Step("(equal? c18x@@ c18y@@)", "ok", NoEmit, TBool(b))>>),
+     \* the twin as hash-map key / hash-set member: found iff bisimilar
+     Op("hashfind", Tag(f, g, "hashfind", <<x, y>>, "|bisim=" \o B2S(b) \o "|same=F|tw=" \o tw),
+        <<Step("(hash-contains? (hash c18x@@ 1) c18y@@)", "ok", NoEmit, TBool(b))>>),
+     Op("hashmember", Tag(f, g, "hashmember", <<x, y>>, "|bisim=" \o B2S(b) \o "|same=F|tw=" \o tw),
+        <<Step("(hashset-contains? (hashset c18x@@) c18y@@)", "ok", NoEmit, TBool(b))>>) >>
+  \* hash codes of bisimilar twins agree (unequal values may collide: nothing asserted)
+  \o (IF b THEN << Op("hashcode", Tag(f, g, "hashcode", <<x, y>>, "|bisim=T|same=F|tw=" \o tw),
+                      <<Step("(= (hash-code c18x@@) (hash-code c18y@@))", "ok", NoEmit, "#true")>>) >>
+      ELSE << >>)
+TwinGroup4(f, v, k, bis) ==
+  IF Assert(TwinOK(v.g, 1, k + 1, bis), <<"twin: Eq / Hash disagree with bisimilarity", v>>)
+  THEN << [build |-> BuildTwo(v.g, 1, k + 1), wr |-> "", ops |-> TwinOps(f, v.g, 1, k + 1, <<1, k + 1>> \in bis, v.tw)],
+          [build |-> BuildTwo(v.g, k + 1, 1), wr |-> "", ops |-> TwinOps(f, v.g, k + 1, 1, <<k + 1, 1>> \in bis, v.tw)] >>
+  ELSE << >>
+TwinGroup(f, v, k) == TwinGroup4(f, v, k, Bisim(v.g))
+TwinGroups(f, b, vs) == Flatten([q \in 1..Len(vs) |-> TwinGroup(f, vs[q], Len(b.k))])
+\* bases: rooted at node 1, cyclic or (acyclic and) sharing a node
+TwinCase(f, b) ==
+  IF ReachFrom(b, {1}) = Nodes(b) /\ (CycNodes(b, {1}) # {} \/ Shared(b, {1}) # {})
+  THEN [fam |-> f, n |-> Len(b.k), groups |-> SingleGroup(f, b) \o TwinGroups(f, b, TwinVariants(b))]
+  ELSE [fam |-> f, n |-> Len(b.k), groups |-> << >>]
 
 -----------------------------------------------------------------------------
 (* PART 2: the depth / width matrix.                                          *)
@@ -637,7 +741,7 @@ DeepCase(c) ==
 
 -----------------------------------------------------------------------------
 (* The state machine *)
-CycFams == {"full", "ring", "func1", "func2", "sim"}
+CycFams == {"full", "ring", "func1", "func2", "sim", "twin"}
 
 Init == /\ fam \in FAMSEL
         /\ IF fam = "deep" THEN /\ ks = << >> /\ h \in DeepCombos /\ phase = "done"
@@ -688,7 +792,8 @@ TypeOK == /\ phase \in {"build", "built", "run", "done"}
 ModelOK == (phase = "built" /\ fam \in CycFams) => ModelOK2(G(ks, h), Bisim(G(ks, h)))
 \* one REPLAY line per finished heap (cyclic families: only heaps with a tested group) / deep combination
 EmitCase2(c) == c.groups = << >> \/ PrintT(<<"REPLAY", ToJson(c)>>)
-EmitCase == /\ (phase = "built" /\ fam \in CycFams /\ ~ALG) => EmitCase2(CycCase(fam, G(ks, h)))
+EmitCase == /\ (phase = "built" /\ fam \in CycFams \ {"twin"} /\ ~ALG) => EmitCase2(CycCase(fam, G(ks, h)))
+            /\ (phase = "built" /\ fam = "twin" /\ ~ALG) => EmitCase2(TwinCase(fam, G(ks, h)))
             /\ (phase = "done" /\ fam = "deep") => EmitCase2(DeepCase(h))
 
 (* ALG mode: the measure of the running machine strictly decreases with every *)
